@@ -6,6 +6,11 @@ ids = [json.loads(l)["id"] for l in open(os.path.join(HERE, "properties.jsonl"))
 
 # id -> (category, technique, level text, level note, design ref)
 CLAIMED = {
+ "C18": ("exploration",
+         "property-based testing over PSK lists x holder assignments x retention/join epochs with an explicit predicate for who must follow, plus canonical state equality for those who must not",
+         "For generated PSK commits (1-4 external/resumption PSKs by value or by reference, optional joiner) and generated per-member holdings (same / different / absent value; resumption epochs relative to retention and join epoch), exactly the predicted members follow and agree, all others fail unchanged, joiners need the same PSKs.",
+         "The sensitivity of the PSK secret to value/id/nonce/order is decided by C13's byte-level differential. Two listed known findings (consumed handshake key; cached unresolvable resumption PSK blocks commits).",
+         "DESIGN.md §4 C18"),
  "C07": ("exploration",
          "stateful property-based testing biased to joins, with mismatch injection (foreign Welcome, wrong / truncated / flipped tree, stale GroupInfo) and key-package store inspection",
          "Generated histories with by-value/by-reference adds, several joiners per commit, both Welcome and tree delivery options, external commits and returning members; joiners must agree with the members, exchange messages and commit at once; the first write removes exactly the used key package (none for last-resort); every mismatched Welcome / tree / GroupInfo combination must fail.",
